@@ -109,7 +109,7 @@ func (m c04) run(c *Ctx, d *DocSpec) {
 		if pi := Guard(func() {
 			col := &jsonapi.Resources{}
 			for _, rs := range all {
-				t := d.Schema.Type(rs.Type)
+				t := rs.ownType(d.Schema.Type(rs.Type))
 				res := buildResource(t, rs)
 				parts = append(parts, string(jsonapi.MarshalResource(res, d.Prefix, append([]string{}, d.Fields[rs.Type]...), copyStrMap(d.RelData))))
 				col.Add(buildResource(t, rs))
@@ -149,6 +149,26 @@ func (m c04) Case(c *Ctx, r *RNG) {
 			d.Kind = "resource"
 			t := &d.Schema.Types[0]
 			d.Primary = []*ResSpec{genResource(r, t, "primary-1")}
+		}
+	}
+	// some resources have a type of their own with fewer fields than the schema type of the same name (what
+	// UnmarshalPartialResource returns): "the attributes of ITS type"
+	if d.Kind == "resource" || (d.Kind == "collection" && d.Holder == "Resources") || len(d.Included) > 0 {
+		pool := d.Included
+		if d.Kind == "resource" || d.Holder == "Resources" {
+			pool = append(append([]*ResSpec{}, d.Primary...), d.Included...)
+		}
+		for i, rs := range pool {
+			if r.Chance(1, 4) {
+				t := d.Schema.Type(rs.Type)
+				cp := *rs
+				cp.Only = subsetStrings(r, t.FieldNames())
+				if cp.Only == nil {
+					cp.Only = []string{}
+				}
+				*pool[i] = cp
+				c.Count("resources_with_fewer_fields_than_their_schema_type")
+			}
 		}
 	}
 	if c.Index < 2 {
